@@ -13,7 +13,7 @@ Rec == ndJsonDeserialize(IOEnv.TRACE)
 VARIABLES l, st
 vars == <<l, st>>
 
-StInit == [last |-> <<>>, count |-> 0, run |-> RunInit]
+StInit == [last |-> <<>>, count |-> 0, run |-> RunInit, lastKey |-> <<>>, cfgs |-> {}, ptypes |-> {}]
 
 TraceInit == l = 1 /\ st = StInit
 
@@ -52,11 +52,32 @@ Compact8   == Stateless("compact8", Compact8OK(E))
 Compact10  == Stateless("compact10", Compact10OK(E))
 CompactPair == Stateless("compactpair", CompactPairOK(E))
 
+AdvanceKeys(xs) == [st EXCEPT !.lastKey = IF Len(xs) > 0 THEN TriKey(xs[Len(xs)].tri) ELSE st.lastKey,
+                              !.count = st.count + Len(xs)]
+Anchors    == /\ IsEvent("anchors")
+              /\ LET ok == AnchorsOK(E, st.lastKey) /\ Drift(AnchorsPinned(E), "anchors differ from the v0.6.2 walk")
+                 IN Judge(ok) /\ st' = IF ok /\ E.sorted THEN AdvanceKeys(E.entries) ELSE st
+AnchorsPin == /\ IsEvent("anchorspin")
+              /\ LET ok == AnchorsOK(E, st.lastKey) /\ AnchorsPinned(E)
+                 IN Judge(ok) /\ st' = IF ok /\ E.sorted THEN AdvanceKeys(E.entries) ELSE st
+AnchorsEnd == IsEvent("anchorsend") /\ Judge(AnchorsEndOK(E, st.count)) /\ st' = StInit
+RelConfig  == Stateless("relconfig", RelConfigOK(E))
+RelFact    == /\ IsEvent("relfact")
+              /\ LET ok == RelFactOK(E) IN Judge(ok) /\ st' = IF ok THEN [st EXCEPT !.cfgs = @ \cup {CfgTuple(E.cfg)}] ELSE st
+CoverFact  == /\ IsEvent("coverfact")
+              /\ LET ok == CoverFactOK(E) IN Judge(ok) /\ st' = IF ok THEN [st EXCEPT !.ptypes = @ \cup {<<E.ptype[1], E.ptype[2]>>}] ELSE st
+RelEnd     == IsEvent("relend") /\ Judge(st.cfgs = Configs16 /\ st.ptypes = AllTileTypes) /\ st' = StInit
+ChildGeom  == Stateless("childgeom", ChildGeomOK(E))
+QuintMap   == Stateless("quintmap", QuintMapOK(E) /\ Drift(QuintMapPinOK(E), "relabelling differs from v0.6.2"))
+QuintMapPin == Stateless("quintmappin", QuintMapOK(E) /\ QuintMapPinOK(E))
+
 TraceNext ==
   \/ Reset \/ Codec \/ DecodeEv \/ HexFmtEv \/ HexParseEv
   \/ SortedBlock \/ AncPair \/ RunBlock
   \/ Children \/ ParentComp \/ ChildComp \/ LevelBlock \/ LevelEnd
   \/ Uncompact \/ Compact8 \/ Compact10 \/ CompactPair
+  \/ Anchors \/ AnchorsPin \/ AnchorsEnd \/ RelConfig \/ RelFact \/ CoverFact \/ RelEnd \/ ChildGeom
+  \/ QuintMap \/ QuintMapPin
 
 TraceSpec == TraceInit /\ [][TraceNext]_vars
 
